@@ -471,6 +471,87 @@ func ladder(c *ev.Case) {
 	c.Distinct("ladder need=%d slack=%d", need/16, base.limit-need)
 }
 
+// childLadder: the ladder of limits applied to a CHECKPREDICATE child.  A small program that ends
+// with pushes and one copying / splicing stack instruction runs as the predicate of
+// <all items> <program> <limit> CHECKPREDICATE for EVERY child limit from 0 to a little above its
+// need, so the child also fails in the middle of each instruction's cost sequence (base cost paid,
+// deposit not).  What the failed child is refunded is decided from its stacks; the step oracle
+// measures the parent's drop net of what the child's completed instructions consumed.
+var copyOps = []vm.Op{vm.OP_TUCK, vm.OP_DUP, vm.OP_OVER, vm.OP_2DUP, vm.OP_3DUP, vm.OP_2OVER, vm.OP_IFDUP, vm.OP_SWAP, vm.OP_ROT, vm.OP_2SWAP, vm.OP_2ROT, vm.OP_NIP, vm.OP_CAT, vm.OP_TOALTSTACK}
+
+func childLadder(c *ev.Case) {
+	r := c.Rand
+	g := &gen{r: r, kinds: map[string]bool{}}
+	var in *input
+	var need, window int64
+	var child []byte
+	for try := 0; ; try++ {
+		if try == 30 {
+			c.Count("child_ladder_no_candidate", 1)
+			return
+		}
+		p := &prog{}
+		if r.Chance(2, 3) {
+			p.b = append(p.b, g.grammar()...)
+		}
+		// items of 70-400 bytes among the last pushes: a deposit that is larger than CHECKPREDICATE's own
+		// cost, so that an unpaid or twice refunded deposit is not hidden behind it
+		maxItem := 0
+		for i := r.Range(2, 6); i > 0; i-- {
+			d := g.smallData()
+			if r.Chance(1, 2) {
+				d = r.Bytes(r.Range(70, 400))
+			}
+			if len(d) > maxItem {
+				maxItem = len(d)
+			}
+			p.push(d)
+		}
+		op := copyOps[r.Intn(len(copyOps))]
+		p.op(op)
+		if r.Bool() {
+			p.op(copyOps[r.Intn(len(copyOps))])
+		}
+		in = newInput(g, p.b)
+		top := run(c, in, 20000, false)
+		c.Eval(1)
+		if top.ck.sawCP || (top.class != "ok" && top.class != "false-result") {
+			continue
+		}
+		if need = top.limit - top.ck.minRun0; need <= 6000 {
+			child = p.b
+			window = 4*int64(maxItem+16) + 40 // the last instructions: where the copies are made
+			c.Count("child_ladder_last_op:"+op.String(), 1)
+			break
+		}
+	}
+	c.Count("child_ladder_programs", 1)
+	from := need - window
+	if from < 0 || r.Chance(1, 8) {
+		from = 0
+	}
+	if need-from > 2500 {
+		from = need - 2500
+	}
+	for l := from; l <= need+12; l++ {
+		p := &prog{}
+		p.num(0) // the child gets every item of the parent's stack
+		p.push(child)
+		p.num(uint64(l))
+		p.op(vm.OP_CHECKPREDICATE)
+		p.op(vm.OP_DROP)
+		p.num(1)
+		in2 := *in
+		in2.code = p.b
+		c.Journal(in2.describe(20000))
+		res := run(c, &in2, 20000, l%4 == 0)
+		c.Eval(1)
+		c.Count("child_ladder_runs", 1)
+		c.Count("child_ladder_parent_"+res.class, 1)
+	}
+	c.Distinct("child-ladder need=%d", need/16)
+}
+
 func TestC07(t *testing.T) {
 	r := ev.Start(t, "C07")
 	defer r.Finish()
@@ -491,6 +572,7 @@ func TestC07(t *testing.T) {
 	group("random-ops", r.N(3000, 120000), func(c *ev.Case) { oneCase(c, "random-ops") })
 	group("random-bytes", r.N(2000, 80000), func(c *ev.Case) { oneCase(c, "random-bytes") })
 	group("ladder", r.N(300, 12000), ladder)
+	group("child-ladder", r.N(120, 8000), childLadder)
 
 	r.Floor("runs", 30000)
 	r.Floor("steps_completed", 1000000)
@@ -510,6 +592,9 @@ func TestC07(t *testing.T) {
 	r.Floor("mono_below_need_checked", 3000)
 	r.Floor("mono_between_checked", 1000)
 	r.Floor("ladder_programs", 100)
+	r.Floor("child_ladder_programs", 60)
+	r.Floor("child_ladder_runs", 5000)
+	r.Floor("child_ladder_last_op:TUCK", 3)
 	r.Floor("must_fail_instructions_recognised", 3000)
 	r.Floor("frag_loop-around-checkpredicate", 100)
 	r.Floor("frag_loop-counter", 200)
